@@ -399,6 +399,14 @@ func sliceNonEmpty(ctx *oblig.Ctx, v ssa.Value, at ssa.Instruction, d int) bool 
 
 func rule091bounds(r *core.Run, ctx *oblig.Ctx, reach map[*ssa.Function]bool) map[*ssa.Function][]string {
 	r.Rule("R09.1b", "every bounds check the compiler could not prove away, in a function reachable from the router, is discharged by a structural rule or by a reviewed entry whose premises hold")
+	und := boundsRule(r, ctx, "R09.1b", reach)
+	r.Floor("R09.1b", 30, "compiler-reported bounds sites in handler-reachable code")
+	return und
+}
+
+// boundsRule discharges the compiler-reported bounds sites of the functions in
+// scope under the given rule id (shared by C09, C06, C14).
+func boundsRule(r *core.Run, ctx *oblig.Ctx, ruleID string, reach map[*ssa.Function]bool) map[*ssa.Function][]string {
 	und := map[*ssa.Function][]string{}
 	sites, err := oblig.CompilerBounds(r.P)
 	if err != nil {
@@ -427,7 +435,9 @@ func rule091bounds(r *core.Run, ctx *oblig.Ctx, reach map[*ssa.Function]bool) ma
 			k = key(fname(r, s.Fn), s.Check, "call "+s.Callee)
 		}
 		if !reach[s.Fn] {
-			r.Info("R09.1b", k, s.Pos(), "not reachable from the router")
+			if ruleID == "R09.1b" {
+				r.Info(ruleID, k, s.Pos(), "not reachable from the router")
+			}
 			continue
 		}
 		if !res.OK && s.Instr != nil {
@@ -469,14 +479,13 @@ func rule091bounds(r *core.Run, ctx *oblig.Ctx, reach map[*ssa.Function]bool) ma
 			println(s.Pos(), res.OK, res.Rule, k, res.Detail)
 		}
 		if res.OK {
-			r.Held("R09.1b", k, s.Pos(), res.Rule+": "+res.Detail)
+			r.Held(ruleID, k, s.Pos(), res.Rule+": "+res.Detail)
 			continue
 		}
 		und[s.Fn] = append(und[s.Fn], s.Pos())
-		r.Violated("R09.1b", k, s.Pos(), "undischarged bounds obligation in "+fname(r, s.Fn)+": "+res.Detail)
+		r.Violated(ruleID, k, s.Pos(), "undischarged bounds obligation in "+fname(r, s.Fn)+": "+res.Detail)
 	}
 	r.Extra["compiler_bounds_sites"] = nSites
-	r.Floor("R09.1b", 30, "compiler-reported bounds sites in handler-reachable code")
 	return und
 }
 
